@@ -487,6 +487,17 @@ def execute(trace, ctx):
                     if gkey(gi) == gkey(gi0):
                         model.setdefault(gkey(gi), set()).add((skey(s), skey(p), skey(o)))
                         removed.discard(gkey(gi))
+            elif via in ("ds", "cg") and op["uid"] % 5 == 0:
+                # through the batching wrapper: triples without a graph go where add(triple) puts them, quads to their graph
+                from rdflib.graph import BatchAddGraph
+
+                ctx.probe("addN-through-BatchAddGraph")
+                with BatchAddGraph(cg if via == "cg" else ds, batch_size=2, batch_addn=bool(op["uid"] % 2)) as batch:
+                    for s, p, o, gi in op["q"]:
+                        batch.add((T(s), T(p), T(o)) if gi is None else (T(s), T(p), T(o), garg(op, gi)))
+                for s, p, o, gi in op["q"]:
+                    model.setdefault(gkey(gi), set()).add((skey(s), skey(p), skey(o)))
+                    removed.discard(gkey(gi))
             else:
                 quads = [(T(s), T(p), T(o), garg(op, gi) if not (gi is None and op["uid"] % 2) else None) for s, p, o, gi in op["q"]]
                 (cg if via == "cg" else ds).addN(quads)
